@@ -26,7 +26,7 @@ class Outcome:
 def classify_compile(tc, r):
     """r: Res of a compiler invocation. Returns None if fine, else Outcome(kind in rejected/crash/hang)."""
     t = r.text() + r.err.decode("latin-1")
-    if r.cpu_hit:
+    if r.cpu_hit or "Exceeded time limit imposed by operating system" in t:
         return Outcome("hang", text=t[-400:], res=r)
     if aldor.has_fault(r) or "Compiler bug" in t:
         return Outcome("crash", text=t[-600:], site=aldor.fault_site(tc, t), res=r)
@@ -35,10 +35,10 @@ def classify_compile(tc, r):
     return None
 
 
-def run_interp(tc, wd, file, opts=("-Q1",), env=None, lib="aldor"):
-    r = aldor.interp(tc, wd, file, opts, lib=lib, env=env)
+def run_interp(tc, wd, file, opts=("-Q1",), env=None, lib="aldor", cpu=None):
+    r = aldor.interp(tc, wd, file, opts, lib=lib, env=env, cpu=cpu)
     t = r.text()
-    if r.cpu_hit:
+    if r.cpu_hit or "Exceeded time limit imposed by operating system" in t:
         return Outcome("hang", text=t[-300:], res=r)
     if "VERIF-FAULT-SITE" in t or "Compiler bug" in t or "Bug:" in t or "Program fault" in t:
         return Outcome("crash", text=t[-600:], site=aldor.fault_site(tc, t), res=r)
